@@ -77,6 +77,8 @@ pub struct SFacts {
     pub cancels_read: Vec<(usize, u64)>,
     pub stream_end: Option<usize>,
     pub stream_err: Option<(usize, String)>,
+    /// first quiescent point reached while the peer was not reading its responses (sink blocked)
+    pub q0: Option<(usize, Vec<i128>)>,
     /// error items after which the application kept polling the stream (rec idx)
     pub served_on_errors: Vec<usize>,
     pub stream_dropped: Option<usize>,
@@ -359,6 +361,11 @@ pub fn sfacts(recs: &[Rec]) -> SFacts {
                 }
             }
             Rec::N("cancel_sent", _) => f.cancel_msgs += 1,
+            Rec::N("Q0", v) => {
+                if f.q0.is_none() {
+                    f.q0 = Some((i, v.clone()))
+                }
+            }
             Rec::N("cancel_suppressed", _) => f.cancel_msgs += 1,
             Rec::S("stream_end", _) => f.stream_end = Some(i),
             Rec::S("stream_err", k) => f.stream_err = Some((i, k.clone())),
@@ -594,6 +601,26 @@ fn c04(
                 cfg,
                 format!("a response for request id {} (payload {}) was transmitted after its cancellation was processed", i.id, i.p),
             );
+        }
+    }
+    // receiving is not optional: a cancellation that sits unread in the transport with nothing woken
+    // and the channel alive has not been acted on (without a limiter: the known finding D-C06 is
+    // about a limiter that stops reading at its limit)
+    for (q1i, q) in f.q0.iter().chain(f.q1.iter()) {
+        if q[1] != 0 && q[0] > 0 && cfg.limit.is_none() && f.first_err.map(|x| x.0 > *q1i).unwrap_or(true) && f.eof_read.map(|x| x > *q1i).unwrap_or(true) {
+            for r in &e.recs[..*q1i] {
+                if let Rec::N("cancel_sent", c) = r {
+                    let id = c[0] as u64;
+                    if f.cancels_read.iter().any(|(ci, cid)| *cid == id && ci < q1i) {
+                        continue;
+                    }
+                    for i in f.inst.values() {
+                        if i.id == id && i.hstart.is_some() && i.hfinish.is_none() && i.hdrop.map(|d| d.0 > *q1i).unwrap_or(true) && i.resp.is_empty() {
+                            v(vs, "C04-cancel-not-received", cfg, format!("the cancellation of request id {} (payload {}) sits unread in the transport, nothing is woken, and its handler is still alive", i.id, i.p));
+                        }
+                    }
+                }
+            }
         }
     }
     // (c) it stops counting as in flight: after each stream poll, in_flight <= |maybe tracked|
@@ -1083,7 +1110,9 @@ fn c10(cfg: &SCfg, e: &Exec, f: &SFacts, vs: &mut Vec<Violation>, nt: &mut bool)
         if er < *q1idx && f.stream_dropped.map(|d| f.stream_end.map(|s| s < d).unwrap_or(false)).unwrap_or(true) {
             let ended = q[6] != 0;
             let surely: Vec<&Inst> = f.inst.values().filter(|i| tracked(f, i, *q1idx).0).collect();
-            let maybe = f.inst.values().filter(|i| tracked(f, i, *q1idx).1).count();
+            // (at quiescence a request the application has given up is over: its guard's notice has
+            // been queued, and a channel that is not woken by it has lost it)
+            let maybe = f.inst.values().filter(|i| tracked(f, i, *q1idx).1 && i.app_dropped.map(|d| d >= *q1idx).unwrap_or(true)).count();
             if !ended && maybe == 0 {
                 v(
                     vs,
@@ -1364,6 +1393,16 @@ pub fn configs(prop: SProp, tier: Tier) -> Vec<SCfg> {
         }
         SProp::C04 => {
             let alpha = S_CANCEL | S_CANCEL_UNKNOWN | S_FINISH | S_DRAIN;
+            // the sink (one slot, not drained) and the response buffer (one slot) are full of finished
+            // responses when the cancellation of a third, running request arrives: it is read and
+            // acted on all the same (seeded change C04i / C06g stopped reading while the response
+            // buffer was full)
+            for route in [Route::Requests, Route::Execute] {
+                let reqs = vec![ReqCfg::simple(0, true), ReqCfg::simple(1, true), ReqCfg::simple(2, false)];
+                let mut c = base(reqs, None, 1, Flavour::Coupled, 1, alpha);
+                c.route = route;
+                out.push(c);
+            }
             for n in 1..=3usize {
                 for limit in [None, Some(1), Some(2)] {
                     for rb in [1usize, 2] {
@@ -1518,6 +1557,20 @@ pub fn configs(prop: SProp, tier: Tier) -> Vec<SCfg> {
                                 // request in flight stays the only one (seeded change C08c: the
                                 // ignored duplicate left a timer behind that later "expired" the
                                 // original, so the next duplicate was offered as a new request)
+                                // a handler that has finished while the response buffer and the sink
+                                // are full waits for room; its request is cancelled and the id reused
+                                // at once: the old response never appears (seeded change C08i took the
+                                // wait for room out of the abortable part of `execute`)
+                                if n == 1 && rb == 1 && pol[0] && *fl == Flavour::Coupled && *cap == 1 {
+                                    for fin_new in [false, true] {
+                                        let im = |id: u64| ReqCfg { hk: HKind::Immediate, ..ReqCfg::simple(id, true) };
+                                        let rs = vec![im(1), im(2), im(3), ReqCfg::cancel_of(3), ReqCfg::simple(3, fin_new)];
+                                        let mut c = base(rs, None, rb, *fl, *cap, alpha);
+                                        c.route = route;
+                                        c.reuse_after_end = true;
+                                        out.push(c);
+                                    }
+                                }
                                 // a request in flight on a connection whose inbound side the peer
                                 // has ended (it still reads), the clock passing the deadline, the
                                 // handler finishing afterwards (seeded change C08h stopped driving
@@ -1547,6 +1600,18 @@ pub fn configs(prop: SProp, tier: Tier) -> Vec<SCfg> {
         SProp::C09 => {}
         SProp::C10 => {
             let alpha = S_EOF | S_FINISH | S_CANCEL | S_DRAIN | S_DROPH | S_ADVANCE;
+            // the inbound side has ended and the application gives up the requests still in flight one
+            // after the other (every handler dropped after its first poll): each of them wakes the
+            // channel, and when the last one has gone the channel ends (seeded change C10i stopped
+            // listening for the guards' notices after the first one)
+            for n in 2..=3usize {
+                for route in [Route::Requests, Route::Execute] {
+                    let rs: Vec<ReqCfg> = (0..n as u64).map(|i| ReqCfg { hk: HKind::DropAfter(1), ..ReqCfg::simple(i, false) }).collect();
+                    let mut c = base(rs, None, 1, Flavour::Always, 1, S_EOF | S_DRAIN);
+                    c.route = route;
+                    out.push(c);
+                }
+            }
             for n in 1..=3usize {
                 for limit in [None, Some(1)] {
                     for rb in [1usize, 2] {
